@@ -2,6 +2,8 @@
 tool/mkmanifest.py derives MANIFEST.json from it."""
 
 ENGINES = [
+    dict(name="sched", path="/verif/shim/vrt/vrt.go + /verif/harness/sched/explore.go", serves_properties=["C04"],
+         kind_free_text="controlled cooperative scheduler (sync import rewritten to a shim through go build -overlay) + stateless preemption-bounded DFS over thread interleavings of the real code; hand-off invisible to the race detector so -race reports real unsynchronised accesses per schedule"),
     dict(name="xstate", path="/verif/harness/lib/xstate.go", serves_properties=["C17"],
          kind_free_text="explicit-state breadth-first search over operation histories of real oxy objects under a frozen clock; successor = replay on a fresh instance + one operation; state key = reflective deep dump + oracle monitor"),
 ]
@@ -19,6 +21,13 @@ CHECKS = {
         note="frozen clock, one instant per API call (A2); parameters limited to the listed alphabet (A4)",
         parts=[dict(bin="vh", part="c17", shards=16, budget=dict(quick=100, thorough=1500))]),
 }
+
+CHECKS["C04"] = dict(
+    level="model_checking", engine="sched", design_ref="DESIGN.md §5 C04",
+    technique="stateless DFS over ALL thread interleavings (controlled scheduler at lock/yield points) of the real ConnLimiter vs an in-flight reference count",
+    text="All interleavings (no preemption bound) of 3 (quick) / 4 (thorough) request threads over sources {a,b}, limits {1,2} and every normal/panic handler pattern are executed on the real ConnLimiter; in-handler count <= limit, a 429 only when the source's in-flight reference count equals the limit, and after quiescence every source reaches exactly the full maximum again.",
+    note="scheduling points = limiter lock acquisitions, in-handler yield, thread start/end; sequential consistency between points (A3); Unlock is not a point",
+    parts=[dict(bin="vsched", part="c04", shards=16, budget=dict(quick=100, thorough=1500))])
 
 NOT_APPLICABLE = [dict(property_id=p, reason="check not built yet in this revision (work in progress; see DESIGN.md for the plan)")
                   for p in ALL if p not in CHECKS]
